@@ -44,12 +44,17 @@ func init() {
 
 func c10Cases(tier string, seed int64) []core.Case {
 	var cases []core.Case
-	faults := []string{"close", "reset", "stall-undersize", "stall-oversize", "stall-badtype", "stall-unknowntag"}
+	faults := []string{"close", "reset", "stall-undersize", "stall-oversize", "stall-badtype", "stall-unknowntag", "stall-undersize-5", "stall-undersize-6", "stall-zero-5", "stall-oversize-6"}
 	for k := 0; k <= 4; k++ {
 		for _, fault := range faults {
 			for _, dotu := range []bool{true, false} {
 				if tier == "quick" && !dotu && fault != "close" {
 					continue
+				}
+				if tier == "quick" && (strings.HasSuffix(fault, "-5") || strings.HasSuffix(fault, "-6")) {
+					if k != 0 && k != 2 {
+						continue
+					}
 				}
 				k, fault, dotu := k, fault, dotu
 				cases = append(cases, core.Case{ID: fmt.Sprintf("cut/k=%d/%s/dotu=%v", k, fault, dotu), Run: func(ctx *core.Ctx) core.Result {
@@ -296,6 +301,15 @@ func c10Session(res *core.Result, k int, fault string, dotu bool, cut int, holdP
 			g = []byte{3, 0, 0, 0, wire.Rclunk, 1, 0}
 		case "stall-oversize":
 			g = []byte{0, 0, 0, 0x10, wire.Rread, 1, 0, 9, 9, 9}
+		// the same announcements with only 5 or 6 bytes on the wire: what the size field says is known all the same
+		case "stall-undersize-5":
+			g = []byte{5, 0, 0, 0, wire.Rclunk}
+		case "stall-undersize-6":
+			g = []byte{6, 0, 0, 0, wire.Rclunk, 1}
+		case "stall-zero-5":
+			g = []byte{0, 0, 0, 0, 0}
+		case "stall-oversize-6":
+			g = []byte{0, 0, 0, 0x10, wire.Rread, 1}
 		case "stall-badtype":
 			g = []byte{7, 0, 0, 0, 99, 1, 0}
 		case "stall-unknowntag":
